@@ -60,6 +60,10 @@ CHECKS["C06"] = ("fault_enumeration", "crash-point enumeration through the stora
   "for each deterministic scenario variant (live following with reorgs; orderly stop + node moves on + start-up catch-up; background removal while blocks arrive) every commit boundary k of the crash-free run is used as crash point before and after the commit; the restarted wallet must come up, finish background work and end in exactly the twin's observation record and the ledger",
   "crash model: the files hold exactly the first k commits (LevelDB batch write is the only write path); volatile state is lost by abandoning the instance; multi-batch imports are covered by C07", "§5 C06")
 
+CHECKS["C07"] = ("exploration", "reference-ledger monitor on a wallet restored from its mnemonic, with schedule control through a node-database interposer (rescan worker held inside the calls of a batch while chain changes are committed) and status / bounded-progress monitors",
+  "a wallet known only by its mnemonic (addresses derived independently, index gaps below the gap limit) is restored on a chain containing its history; reorgs and new blocks are injected while the rescan transaction is open, also on 2100-3200-block chains with ≥3 batches; while importing it must be listed as importing and refuse selection/removal; it must finish within a bounded number of worker rounds and then equal the ledger",
+  "the original live-watching wallet is represented by the reference ledger (C01); injected reorgs reach the whole scanned range only on short chains", "§5 C07")
+
 NOT_APPLICABLE = {}
 
 def main():
